@@ -6,6 +6,20 @@ PROPS = ['C%02d' % i for i in range(1, 21)]
 BASELINE = "cd /repo && /venv/bin/python -m pytest -ra -q -p no:cacheprovider --timeout=900 --continue-on-collection-errors"
 
 CLAIMED = {
+ 'C11': dict(
+    category='proof',
+    text="Rocq theorems over coq/Inputs.v (a model of all seven input classes and of InputStore.__getitem__, including Python's int() and "
+         "float() literal grammars) for EVERY ASCII string: C11_getitem_gate (a value reaches a line only from supplied text that passed "
+         "the class's own validation), C11_store_value_typed, C11_float_input_is_finite, C11_invalid_is_reported, "
+         "C11_getitem_never_raises (validation and conversion agree), C11_supplied_not_missing, C11_absent_not_defaulted. "
+         "Tie: adversarial strings (white space incl. FS..US, case, signs, underscores, exponents, nan/inf, overflow boundary "
+         "1.7976931348623159e308, near-miss enumeration names) through the real classes, the real InputStore (prompt path and file path) "
+         "and the model - valid(), value() and __getitem__ compared case by case, floats as nearest double of the model's exact value.",
+    design_ref='DESIGN.md §4 C11',
+    note="Bytes >= 128 are opaque in the model: non-ASCII strings (unicode digits, NBSP) are run through the property monitor only (partial). "
+         "re.match is a parameter of the model. configparser parsing is exercised, not modelled. Print Assumptions: closed.",
+    technique='Rocq proofs over a string-level model of inputs.py + differential correspondence on adversarial strings',
+ ),
  'C09': dict(
     category='other',
     text="Mixed. Proved in Rocq: the solver half (C01: a demanded line that signals not-implemented, or is blocked, prevents success - "
